@@ -46,18 +46,18 @@ Theorem C23_every_stream_enciphered : forall strE stmE to_os d filters raw d' ra
 Proof. exact stream_data_enciphered. Qed.
 Print Assumptions C23_every_stream_enciphered.
 
-(* an undecoded member is emitted as the encryption of the decoded object when a key is set; the verbatim
-   fast path remains only without a key *)
+(* an undecoded member is emitted as the encryption of the decoded object when a key is set; without a
+   key it is written exactly like the decoded object (there is no verbatim fast path any more) *)
 Theorem C23_lazy_enciphered : forall strE stmE o e,
   write_iobj true strE stmE false (ILazy o) = Ok e ->
   exists o', e = EmTop o' /\ encryptDeep strE o = Ok o'.
 Proof. exact lazy_enciphered. Qed.
 Print Assumptions C23_lazy_enciphered.
 
-Theorem C23_lazy_unkeyed_verbatim : forall strE stmE to_os o,
-  write_iobj false strE stmE to_os (ILazy o) = Ok (EmTop o).
-Proof. exact lazy_unkeyed_verbatim. Qed.
-Print Assumptions C23_lazy_unkeyed_verbatim.
+Theorem C23_lazy_unkeyed_decoded : forall strE stmE to_os o,
+  write_iobj false strE stmE to_os (ILazy o) = write_plain to_os (IObj o).
+Proof. exact lazy_unkeyed_decoded. Qed.
+Print Assumptions C23_lazy_unkeyed_decoded.
 
 (* non-vacuity: a path to a covered leaf, a path to an exempt leaf, a nested non-signature /Contents *)
 Example C23_nonvacuous :
